@@ -10,20 +10,23 @@ from . import C11
 EXPLANATION = (
     "Static decision of structural clauses of C08: (1) cursor-bounds dataflow (a zone-style abstract "
     "domain over avail = limit - cursor with constant and symbolic lower bounds, counted-loop and "
-    "lock-step summaries) over every decoder function of snappy.c, lz4.c, rle.c, delta.c, "
-    "delta_length.c, delta_strings.c, dictionary.c, plain.c, buffer.c and thrift_decode.c: every read "
-    "or write through an input/output cursor (`*ip++`, `buf[pos++]`, memcpy, fixed-width reads) is "
-    "covered by a bound established on every path; sub-buffers handed to callees carry exactly the "
-    "remaining length or the callee's declared extent; (2) cursor-skeleton execution of the "
-    "count-driven decoders (bit unpackers for every width 0..32 and count 0..40 (0..130 in the thorough tier), PLAIN, "
-    "BYTE_STREAM_SPLIT): reads inside the bytes the caller checked, writes inside count values; (3) "
-    "every variable index into fixed-size decoder state (delta mini-block arrays, RLE group buffer, "
-    "Thrift field-id stack) is bounded by a dominating guard, a validated header invariant or a "
-    "field that only holds bounded constants, and the constants of the validation guards fit the "
-    "array lengths; (4) index guards are sign-safe (no narrowing-to-signed cast decides an upper "
-    "bound alone); (5) every recursion cycle has a depth or progress guard; (6) decoders that "
-    "allocate release their temporaries on every exit (ownership engine). Decides these clauses, "
-    "not termination bounds, oversized shifts, nor safety inside zlib/zstd.")
+    "lock-step summaries) over every decoder function of snappy.c, lz4.c, rle.c, delta.c, delta_length.c, "
+    "delta_strings.c, dictionary.c, plain.c, buffer.c and thrift_decode.c: every read or write through an "
+    "input/output cursor is covered by a bound established on every path; a pointer derived from buffer + "
+    "cursor (a local, or the argument of a helper whose every access is proven below its length "
+    "parameter) needs that length available at the point of derivation; sub-buffers handed to other "
+    "callees carry exactly the remaining length or the callee's declared extent; (2) cursor-skeleton "
+    "execution of the count-driven decoders (bit unpackers for every width 0..32 and count 0..40 (0..130 "
+    "thorough), PLAIN, BYTE_STREAM_SPLIT): reads inside the bytes the caller checked, writes inside count "
+    "values; (3) every variable index into fixed-size decoder state is bounded by a dominating guard, a "
+    "validated header invariant (also when the validation is a predicate helper), a loop bound that is a "
+    "helper parameter bounded at every call site, an ensure-helper that answers true only below the limit "
+    "or right after a reset, or a field that only holds bounded constants; (4) index guards are sign-safe "
+    "(judged on the converted operand type); (5) every recursion cycle has a depth, budget or progress "
+    "guard; (6) decoders and the zlib/zstd wrappers release their temporaries and library streams "
+    "(inflateEnd / deflateEnd) on every exit; (7) a refill step of the streaming RLE decoder that gives "
+    "up records an error or has nothing owed by the current run (its driving loops terminate). Decides "
+    "these clauses, not termination bounds in general, oversized shifts, nor safety inside zlib/zstd.")
 
 DECODER_FILES = ["src/compression/snappy.c", "src/compression/lz4.c", "src/encoding/rle.c",
                  "src/encoding/delta.c", "src/encoding/delta_length.c", "src/encoding/delta_strings.c",
